@@ -48,9 +48,9 @@ class EasCtx:
 class KernelCtx:
     """CphotAng(det_alt).run(betaE, alt, Eshow, lat, long, cloudf) stand-alone"""
 
-    def __init__(self, ctx):
+    def __init__(self, ctx, watch=()):
         I = self.I = ctx.interp()
-        I.watch_calls |= {"distance_to_detector"}
+        I.watch_calls |= {"distance_to_detector"} | set(watch)
         self.ci = I.cls(CPHOT_MOD, "CphotAng")
         self.st = I.new_state()
         self.det_alt = I.input("detector_altitude", kind="float")
